@@ -24,7 +24,8 @@ RULE = ("one run = GFA1 document with links over all orientation pairs / self-li
 PROBES = ["dup_complement", "dup_complement_before_path", "asym_cigar", "self_link", "hairpin",
           "path_reversed_traversal", "path_before_link", "variant_second_edge", "algebra_checked",
           "algebra_after_edit", "complement_held_early", "complement_of_link_with_placeholders",
-          "complement_of_foreign_link"]
+          "complement_of_foreign_link", "held_complement_after_removal",
+          "path_overlaps_partly_given"]
 
 
 def gen(streams, tier, i):
@@ -44,10 +45,11 @@ def gen(streams, tier, i):
     hr = streams.get("history")
     tail = []
     pn = 0
+    variants = []     # further links over the ends of a stored one (parallel edges, when accepted)
     for _ in range(hr.randint(2, 8)):
         r = hr.random()
         if r < 0.4 and links:
-            f = hr.choice(links).split("\t")
+            f = hr.choice(links + variants).split("\t")
             a, b = gtext.link_forms(f[1:6])
             tail.append({"op": "dup_complement", "line": "\t".join(["L"] + list(b)), "as": hr.choice(["str", "obj"])})
         elif r < 0.7 and links:
@@ -59,6 +61,22 @@ def gen(streams, tier, i):
             ov = form[4] if hr.random() < 0.7 else "*"
             tail.append({"op": "add_path", "line": "P\tpth%d\t%s%s,%s%s\t%s" % (pn, form[0], form[1], form[2], form[3], ov),
                          "reversed": form is b and a != b})
+            if hr.random() < 0.35:
+                # ... continued over a second link, the overlaps given for one step only (or for both)
+                nxt = []
+                for ln2 in links:
+                    f2 = ln2.split("\t")
+                    for fm in gtext.link_forms(f2[1:6]):
+                        if (fm[0], fm[1]) == (form[2], form[3]):
+                            nxt.append(fm)
+                if nxt:
+                    fm = hr.choice(nxt)
+                    ovs = hr.choice([(form[4], "*"), ("*", fm[4]), (form[4], fm[4])])
+                    if "*" not in (form[4], fm[4]):
+                        pn += 1
+                        tail.append({"op": "add_path", "line": "P\tpth%d\t%s%s,%s%s,%s%s\t%s,%s" %
+                                     (pn, form[0], form[1], form[2], form[3], fm[2], fm[3], ovs[0], ovs[1]),
+                                     "reversed": False, "mixed": "*" in ovs})
         elif links:
             f = hr.choice(links).split("\t")
             g = list(f[:6])
@@ -70,6 +88,7 @@ def gen(streams, tier, i):
                 g[hr.choice([1, 3])] = hr.choice(segs)
             else:
                 g[5] = hr.choice(["1M1I1M", "7M", "2D2M", "1X1=", "3M1P"])
+                variants.append("\t".join(g))
             tail.append({"op": "variant", "line": "\t".join(g), "as": "str"})
     # place the tail ops at scheduler-chosen points of the delivery (paths may precede their links)
     body = [{"op": "add", "line": ln, "as": "str"} for ln in order]
@@ -81,7 +100,8 @@ def gen(streams, tier, i):
         # a client takes the complement of a stored link at some point of the delivery (its segments may still be
         # placeholders then) and keeps it; at the end it compares it with the stored link and offers it to the Gfa
         body.insert(sr.randint(1, len(body)), {"op": "hold_complement", "i": sr.randrange(50)})
-        body.append({"op": "add_held"})
+        # ... (or: removes the stored link first, so that the complement it kept is the only form of the edge)
+        body.append({"op": "add_held", "rm_first": sr.random() < 0.4})
     if cfg.random() < 0.3 and links:
         # the complement of a link of *another* Gfa (same segment names) is offered
         f = hr.choice(links).split("\t")[:6]
@@ -242,6 +262,40 @@ def run(scn, st):
             if not src:
                 continue
             st.count("oracle.held_complement")
+            if op.get("rm_first") and m.settled():
+                rec = m.find(srctext)
+                if rec is None or any(q.rt == "P" for q in m.recs):
+                    continue
+                r0 = core.call(g.rm, src[0])
+                if not r0.ok:
+                    continue
+                m.remove([rec])
+                nlinks = len(stored_links(g))
+                ctext = ob.line_text(c)
+                out = core.call(g.add_line, c)
+                st.count("probe.held_complement_after_removal")
+                if m.add_text(ctext) != "ok":
+                    m.unspecified = "held complement not addable in the model"
+                    continue
+                if not out.ok:
+                    raise core.Violation("different-link-rejected", "the stored %r was removed; its complement %r (taken "
+                                         "earlier) raised %s: %s" % (srctext, ctext, out.excname, str(out.exc)[:200]),
+                                         exc=out.excname, frame=out.frame)
+                try:
+                    from .. import inv as _inv
+                    _inv.closed_symmetric(g)
+                except Exception as b:
+                    raise core.Violation("held-complement-miswired", "the stored %r was removed and its complement %r "
+                                         "(taken earlier) added: %s" % (srctext, ctext, getattr(b, "detail", b)))
+                if len(stored_links(g)) != nlinks + 1:
+                    raise core.Violation("different-link-not-stored", "%r accepted but the stored links went %d -> %d" %
+                                         (ctext, nlinks, len(stored_links(g))))
+                for sname in set(ctext.split("\t")[1:4:2]):
+                    sg = g.segment(sname)
+                    if sg is None or not any(ob.line_text(x) == ctext for x in sg.dovetails):
+                        raise core.Violation("held-complement-miswired", "segment %s does not list %r (added after the "
+                                             "removal of its complement form)" % (sname, ctext))
+                continue
             for (x, y) in ((src[0], c), (c, src[0])):
                 r1 = core.call(lambda: (x.is_complement(y), x.is_eql(y)))
                 r2 = core.call(lambda: (x.is_complement(y), x.is_eql(y)))
@@ -395,6 +449,8 @@ def run(scn, st):
                                          (n, op["line"], out.excname, str(out.exc)[:200]), exc=out.excname, frame=out.frame)
                 if op.get("reversed"):
                     st.count("probe.path_reversed_traversal")
+                if op.get("mixed"):
+                    st.count("probe.path_overlaps_partly_given")
                 if mm.dangling():
                     st.count("probe.path_before_link")
         # ---- path resolution invariant after every step of the tail
